@@ -216,6 +216,41 @@ def r_no_count_rejection(repo, rep, R='R8.5'):
         rep.ok(R, '%s' % RD, 'no line of an AUTO file is refused by counting its brackets (%d definitions inspected)' % len(targets))
 
 
+def r_fix_narrow(repo, rep, R='R8.5'):
+    """the per-field repair of read_auto cuts a trailing `[conj]` off only where CCGbank really has the glitch -- after a closing
+    round bracket or after another feature -- never off an atom: NP[conj] is a category of its own, and a tree that contains it
+    must read back with it."""
+    rm = repo.module(RD)
+    fn = rm.get('read_auto')
+    inner = [n for n in ast.walk(fn) if isinstance(n, ast.FunctionDef) and n is not fn and len(n.args.args) == 1]
+    judged = 0
+    for f_ in inner:
+        p_ = f_.args.args[0].arg
+        for st, o in SymExec(f_, unroll=1).run():
+            if o != 'return' or st.ret is None or st.ret == N(p_):
+                continue
+            r = st.ret
+            if not (r[0] == 'sub' and r[1] == N(p_) and r[2][0] == 'slice'):
+                continue
+            judged += 1
+            sufs = []
+            for c_, pol, _n in st.conds:
+                if pol and c_[0] == 'call' and c_[1] == A(N(p_), 'endswith') and len(c_[2]) == 1:
+                    a_ = c_[2][0]
+                    if a_[0] == 'const' and isinstance(a_[1], str):
+                        sufs.append(a_[1])
+                    elif a_[0] == 'tuple' and all(x[0] == 'const' and isinstance(x[1], str) for x in a_[1]):
+                        sufs += [x[1] for x in a_[1]]
+                    else:
+                        sufs.append(None)
+            ok = bool(sufs) and all(s_ is not None and s_.endswith('[conj]') and len(s_) > 6 and s_[-7] in ')]' for s_ in sufs)
+            rep.check(ok, R, '%s:%s read_auto.%s' % (RD, f_.lineno, f_.name), 'read_auto:fix:narrow',
+                      'the trailing [conj] is cut off only after a closing bracket or another feature (%s)' % sufs,
+                      'read_auto.%s cuts the end off a category field when it ends with %s: an atom with the feature conj (NP[conj]) is a legal category and is '
+                      'read back as NP -- the tree is not the one that was written' % (f_.name, sufs or 'anything'))
+    return judged
+
+
 def check(repo, rep, tier):
     rep.rule('R8.1', 'leaf record: writer fields vs parse_leaf cursor reads')
     rep.rule('R8.2', 'node record: header fields, child loop, closing bracket')
@@ -252,6 +287,7 @@ def check(repo, rep, tier):
     from .c20 import r_ptb_lines
     r_ptb_lines(repo, rep, 'R8.5', reader='read_auto', what='AUTO')
     r_no_count_rejection(repo, rep, 'R8.5')
+    r_fix_narrow(repo, rep, 'R8.5')
     from .c12 import r_same_result
     r_same_result(repo, rep, 'R8.3')         # the head flag a node gets is the one read from its own record (not a value kept on the reader between nodes)
     am = repo.module(AUTO)
